@@ -167,7 +167,14 @@ let model_conc toks =
     let keys = Array.of_list (List.map int_of_string keys) in
     let chain_key i = keys.(i mod Array.length keys) in
     (* one model thread per use; its key as the harness computes it *)
-    if mode = 4 then Printf.sprintf "MEMO-UNHASHABLE uses=%d calls=%d" (ng * nuses) (ng * nuses) else
+    if mode = 4 then begin
+      (* inputs that cannot be map keys: the model of direct calls (ustep), one thread per use *)
+      let nu = ng * nuses in
+      let s = run ustep (round_robin nu 2) (uinit (nat_of_int nu)) in
+      let returned = List.length (List.filter (fun th -> int_of_nat th.u_pc = 3) s.us_threads) in
+      if returned = nu then Printf.sprintf "MEMO-UNHASHABLE uses=%d calls=%d" nu (List.length s.us_calls)
+      else "MODEL-UNEXPECTED"
+    end else
     let uses = List.concat (List.init ng (fun g -> List.init nuses (fun u ->
       let k = if mode = 2 then chain_key ((g + u) mod nchains) else keys.(g * nuses + u) in
       if mode = 3 then min k 4 else k))) in
